@@ -7,7 +7,7 @@
    (corpus/C05/f_c05{b,c,d}.json -> open findings F-C05b..d; f_c05a.json is a regression case). *)
 From Coq Require Import NArith ZArith List Bool Arith.
 From Snap.Array Require Import ArrayDefs SyncModel.
-From Snap.Fix Require Import FixModel HistModel Witnesses RepairProofs PartialProofs Examples RunProofs RunExamples.
+From Snap.Fix Require Import FixModel HistModel Witnesses RepairProofs StripeProofs PartialProofs Examples RunProofs RunExamples.
 Import ListNotations.
 
 (* the statement (Witnesses.fix_never_wrong), unfolded once so that it can be read here *)
@@ -108,3 +108,16 @@ Example C05_fix_start_range_hole_witness :
   /\ nth 0 [0; 12; 13]%N 0%N <> vnth (rx_vs 0) 0.
 Proof. exact rx_fix_start_range_hole. Qed.
 Print Assumptions C05_fix_start_range_hole_witness.
+
+(* The UNSYNCED test (size / time-stamp of the file on disk against the content file) is made once per file and run: opening a file
+   that is already flagged OPENED -- e.g. after fix has written a repaired block into it, which changes its time-stamp -- changes
+   the UNSYNCED flag of no file, emits no tag and counts no error.  So under -e / -b (which skip UNSYNCED files) the later bad
+   blocks of a fragmented file are still repaired after its first block was.  (The rehash-aware hash comparison of repair,
+   blockcmp with prevhash, is not in the fix model: histories with a hash migration in progress are judged by the oracle only.) *)
+Theorem C05_unsynced_test_once_per_file :
+  forall (bs : N) (newino : nat -> N -> N) (now : Z) (o : copts) (pos j : nat) (f : cfile) (s s4 : rstate),
+    fl_opened (get_fl (r_flags s) (j, cf_name f)) = true -> open_step bs newino now o pos j f s = Some s4 ->
+    (forall k, fl_unsynced (get_fl (r_flags s4) k) = fl_unsynced (get_fl (r_flags s) k))
+    /\ r_tags s4 = r_tags s /\ r_err s4 = r_err s.
+Proof. exact open_step_opened_keeps_unsynced. Qed.
+Print Assumptions C05_unsynced_test_once_per_file.
